@@ -56,6 +56,11 @@ def build_assembly(cfg, values=None):
         for p in panels:
             p.calc_k0(silent=True)
         c = np.array([ctx.V('c%d' % k) for k in range(size)], dtype=object)
+        if cfg.get('membrane_panel') is not None:
+            # one panel of the assembly is still flat (in-plane amplitudes only, as in a pre-buckling state)
+            pq = panels[cfg['membrane_panel']]
+            for k in range(pq.col_start + 2, pq.col_end, 3):
+                c[k] = Sym.lift(0)
         d = np.array([ctx.V('d%d' % k) for k in range(size)], dtype=object)
         c0 = c.copy()
         kT = asm.calc_kT(c, silent=True)
@@ -262,6 +267,8 @@ def configs(tier, seed):
                 'group': 'assembly-tangent=jacobian', 'timeout_ms': 300000})
     out.append({'variant': 'assembly', 'panels': [('cpanel', 1, 2), ('plate', 1, 1), ('plate', 2, 1)], 'model': 'assembly', 'm': 1, 'n': 2, 'nx': 1, 'ny': 1,
                 'group': 'assembly-tangent=jacobian', 'timeout_ms': 300000})
+    out.append({'variant': 'assembly', 'panels': [('plate', 2, 1), ('plate', 1, 2)], 'membrane_panel': 1, 'model': 'assembly', 'm': 2, 'n': 1, 'nx': 1, 'ny': 1,
+                'group': 'assembly-tangent=jacobian:one-panel-in-a-membrane-state', 'timeout_ms': 300000})
     out[0]['canary'] = True
     out[1]['canary'] = True
     out[-3]['canary'] = True
